@@ -269,7 +269,7 @@ class Axis(GetSetDelAttrMixin, AbstractAxis):
 
     def cast(self, dtype):
         " copy axis and cast into a new type"
-        ax = Axis(np.asarray(self.values, dtype=dtype), self.name)
+        ax = Axis(np.array(self.values, dtype=dtype), self.name) # always a copy, also when the dtype is unchanged
         ax.attrs.update(self.attrs)
         return ax
 
